@@ -1238,7 +1238,7 @@ def minimise(spec, W, clause, budget=500, deadline=None):
     return cur, W, best
 
 
-TIERS = {"quick": 2700, "thorough": 2700 * 20}
+TIERS = {"quick": 2700, "thorough": 2700 * 40}
 
 
 def run(tier: str, seed: int) -> dict:
